@@ -1,7 +1,7 @@
 (* Proofs/RelocProofs.v — lemmas about Model/Reloc.v (C18). *)
 From Coq Require Import List NArith ZArith Bool Lia ZifyBool ZifyN ZifyNat.
 From Coq.Strings Require Import Byte.
-Require Import GV.Base.Res GV.Base.Byt GV.Base.Ints GV.Model.Leb GV.Model.Prim GV.Model.Reloc.
+Require Import GV.Base.Res GV.Base.Byt GV.Base.Ints GV.Spec.LebSpec GV.Model.Leb GV.Model.Prim GV.Model.Reloc GV.Proofs.LebProofs.
 Import ListNotations.
 Local Open Scope N_scope.
 
@@ -569,4 +569,638 @@ Proof.
   - assert (Hi : winv env be ([], []) []) by (split; cbn; auto).
     destruct (run_inv env be ws [] [] [] b rs bp Hnc Hi Hr Hp) as [H _]. exact H.
   - apply run_reloc_spec in Hr. exact Hr.
+Qed.
+
+(* ================================================================== READER HALF *)
+
+(* ------------------------------------------------------------------ slices *)
+
+Lemma nth_error_slice (s : list byte) o l i :
+  nth_error (slice s o l) i = if (i <? l)%nat then nth_error s (o + i)%nat else None.
+Proof. unfold slice. rewrite nth_error_firstn, nth_error_skipn. reflexivity. Qed.
+
+Lemma slice_length (s : list byte) o l : (o + l <= length s)%nat -> length (slice s o l) = l.
+Proof. intros H. unfold slice. rewrite firstn_length, skipn_length. lia. Qed.
+
+Lemma firstn_slice (s : list byte) o l c : (c <= l)%nat -> firstn c (slice s o l) = slice s o c.
+Proof. intros H. unfold slice. rewrite firstn_firstn. f_equal. lia. Qed.
+
+Lemma skipn_slice (s : list byte) o l c :
+  (c <= l)%nat -> skipn c (slice s o l) = slice s (o + c) (l - c).
+Proof.
+  intros H. apply list_ext; intros i.
+  rewrite nth_error_skipn, !nth_error_slice.
+  destruct (Nat.ltb_spec (c + i) l), (Nat.ltb_spec i (l - c)); try lia; auto.
+  f_equal. lia.
+Qed.
+
+Lemma slice_ext (s t : list byte) o l :
+  (forall i, (o <= i < o + l)%nat -> nth_error s i = nth_error t i) -> slice s o l = slice t o l.
+Proof.
+  intros H. apply list_ext; intros i. rewrite !nth_error_slice.
+  destruct (Nat.ltb_spec i l); auto. apply H. lia.
+Qed.
+
+Lemma slice_patch_in pos new bs :
+  (pos + length new <= length bs)%nat -> slice (patch pos new bs) pos (length new) = new.
+Proof.
+  intros H. apply list_ext; intros i. rewrite nth_error_slice, nth_error_patch by auto.
+  destruct (Nat.ltb_spec i (length new)).
+  - destruct (Nat.leb_spec pos (pos + i)), (Nat.ltb_spec (pos + i) (pos + length new)); try lia.
+    cbn [andb]. f_equal. lia.
+  - symmetry. apply nth_error_None. lia.
+Qed.
+
+(* ------------------------------------------------------------------ decoding / encoding *)
+
+Lemma le_val_bound bs : le_val bs < 2 ^ (8 * N.of_nat (length bs)).
+Proof.
+  induction bs as [|b r IH]; cbn [le_val length].
+  - cbn. lia.
+  - rewrite pow8_S. pose proof (b2n_lt b). lia.
+Qed.
+
+Lemma le_val_le_bytes n x : le_val (le_bytes n x) = x mod 2 ^ (8 * N.of_nat n).
+Proof.
+  revert x; induction n as [|n IH]; intros x; cbn [le_bytes le_val].
+  - cbn. now rewrite N.mod_1_r.
+  - rewrite IH, b2n_n2b, pow8_S.
+    assert (HM : 2 ^ (8 * N.of_nat n) <> 0) by (apply N.pow_nonzero; lia).
+    rewrite N.mod_mul_r by (auto; lia). reflexivity.
+Qed.
+
+Lemma dec_enc_un n be x : dec_un be (enc_un n be x) = x mod 2 ^ (8 * N.of_nat n).
+Proof.
+  unfold dec_un, enc_un, be_val, be_bytes. destruct be.
+  - rewrite rev_involutive. apply le_val_le_bytes.
+  - apply le_val_le_bytes.
+Qed.
+
+Lemma take_spec : forall n (w : list byte),
+  take n w = if (n <=? length w)%nat then Some (firstn n w, skipn n w) else None.
+Proof.
+  induction n as [|n IH]; intros w; cbn [take].
+  - reflexivity.
+  - destruct w as [|b w]; cbn [length firstn skipn]; auto.
+    rewrite IH. change (S n <=? S (length w))%nat with (n <=? length w)%nat.
+    destruct (n <=? length w)%nat; reflexivity.
+Qed.
+
+Lemma read_un_spec n be w :
+  read_un n be w =
+  if (n <=? length w)%nat then Ok (dec_un be (firstn n w), skipn n w) else Err EUnexpectedEof.
+Proof.
+  unfold read_un, read_bytes. rewrite take_spec.
+  destruct (n <=? length w)%nat; reflexivity.
+Qed.
+
+(* ------------------------------------------------------------------ the pre-applied section *)
+
+Lemma apply_rrel_length be r bs : length (apply_rrel be r bs) = length bs.
+Proof.
+  unfold apply_rrel. destruct (N.ltb_spec (blen bs) (rr_pos r + rr_w r)); auto.
+  apply patch_length. rewrite enc_un_length. unfold blen in *. lia.
+Qed.
+
+Lemma apply_rrels_length be R : forall bs, length (apply_rrels be R bs) = length bs.
+Proof.
+  unfold apply_rrels. induction R as [|r R IH]; intros bs; cbn [fold_left]; auto.
+  rewrite IH. apply apply_rrel_length.
+Qed.
+
+Definition idx_away (r : rrel) (i : nat) : Prop :=
+  N.of_nat i < rr_pos r \/ rr_pos r + rr_w r <= N.of_nat i.
+
+Lemma apply_rrel_away be r bs i : idx_away r i -> nth_error (apply_rrel be r bs) i = nth_error bs i.
+Proof.
+  unfold idx_away, apply_rrel. intros H.
+  destruct (N.ltb_spec (blen bs) (rr_pos r + rr_w r)); auto.
+  rewrite nth_error_patch by (rewrite enc_un_length; unfold blen in *; lia).
+  rewrite enc_un_length.
+  destruct (Nat.leb_spec (N.to_nat (rr_pos r)) i), (Nat.ltb_spec i (N.to_nat (rr_pos r) + N.to_nat (rr_w r)));
+    cbn [andb]; auto; lia.
+Qed.
+
+(* F2: an index outside every site is unchanged *)
+Lemma apply_rrels_away be R : forall bs i,
+  (forall r, In r R -> idx_away r i) -> nth_error (apply_rrels be R bs) i = nth_error bs i.
+Proof.
+  unfold apply_rrels. induction R as [|r R IH]; intros bs i H; cbn [fold_left]; auto.
+  rewrite IH by (intros r' Hr'; apply H; now right).
+  apply apply_rrel_away. apply H. now left.
+Qed.
+
+Lemma sites_disjointb_cons r R :
+  sites_disjointb (r :: R) = true ->
+  (forall r', In r' R -> site_disjoint r' (rr_pos r) (rr_w r)) /\ sites_disjointb R = true.
+Proof.
+  cbn [sites_disjointb]. rewrite andb_true_iff, forallb_forall. intros [H1 H2]. split; auto.
+  intros r' Hr'. specialize (H1 r' Hr'). unfold site_disjointb in H1. unfold site_disjoint. lia.
+Qed.
+
+Definition rrel_in (bs : list byte) (r : rrel) : Prop := rr_pos r + rr_w r <= blen bs.
+
+(* F3: the field of a relocation of the set holds its encoded relocated value *)
+Lemma apply_rrels_site be R : forall bs r,
+  sites_disjointb R = true -> In r R -> rrel_in bs r -> 1 <= rr_w r ->
+  slice (apply_rrels be R bs) (N.to_nat (rr_pos r)) (N.to_nat (rr_w r)) =
+  enc_un (N.to_nat (rr_w r)) be
+    (rrel_value r (dec_un be (slice bs (N.to_nat (rr_pos r)) (N.to_nat (rr_w r))))).
+Proof.
+  induction R as [|r0 R IH]; intros bs r Hd Hin Hb Hw; [destruct Hin|].
+  apply sites_disjointb_cons in Hd as [Hd0 Hd].
+  change (apply_rrels be (r0 :: R) bs) with (apply_rrels be R (apply_rrel be r0 bs)).
+  destruct Hin as [->|Hin].
+  - (* the head: patched now, untouched afterwards *)
+    transitivity (slice (apply_rrel be r bs) (N.to_nat (rr_pos r)) (N.to_nat (rr_w r))).
+    + apply slice_ext. intros i Hi. apply apply_rrels_away. intros r' Hr'.
+      specialize (Hd0 r' Hr'). unfold site_disjoint in Hd0. unfold idx_away. lia.
+    + unfold apply_rrel. unfold rrel_in in Hb.
+      destruct (N.ltb_spec (blen bs) (rr_pos r + rr_w r)); try lia.
+      set (e := enc_un _ _ _).
+      replace (N.to_nat (rr_w r)) with (length e) at 1 by (unfold e; apply enc_un_length).
+      apply slice_patch_in. unfold e. rewrite enc_un_length. unfold blen in *. lia.
+  - (* a later one: the head does not touch its field *)
+    specialize (Hd0 r Hin). unfold site_disjoint in Hd0.
+    rewrite IH; auto.
+    + f_equal. f_equal. f_equal. apply slice_ext. intros i Hi. apply apply_rrel_away.
+      unfold idx_away. lia.
+    + unfold rrel_in, blen in *. now rewrite apply_rrel_length.
+Qed.
+
+(* the relocation map finds the unique entry at a position *)
+Lemma relocate_unique R : forall r pos v,
+  sites_disjointb R = true -> In r R -> rr_pos r = pos -> 1 <= rr_w r ->
+  (forall r', In r' R -> rr_pos r' = pos -> 1 <= rr_w r') ->
+  relocate R pos v = rrel_value r v.
+Proof.
+  unfold relocate. induction R as [|r0 R IH]; intros r pos v Hd Hin Hp Hw Hall; [destruct Hin|].
+  apply sites_disjointb_cons in Hd as [Hd0 Hd]. cbn [find].
+  destruct (N.eqb_spec (rr_pos r0) pos) as [E|E].
+  - destruct Hin as [->|Hin]; auto.
+    exfalso. specialize (Hd0 r Hin). unfold site_disjoint in Hd0.
+    specialize (Hall r0 (or_introl eq_refl) E). lia.
+  - destruct Hin as [->|Hin]; [contradiction|].
+    apply IH; auto. intros r' Hr'. apply Hall. now right.
+Qed.
+
+Lemma relocate_none R pos v : (forall r, In r R -> rr_pos r <> pos) -> relocate R pos v = v.
+Proof.
+  unfold relocate. induction R as [|r0 R IH]; intros H; cbn [find]; auto.
+  destruct (N.eqb_spec (rr_pos r0) pos) as [E|E].
+  - exfalso. apply (H r0); auto. now left.
+  - apply IH. intros r Hr. apply H. now right.
+Qed.
+
+(* ------------------------------------------------------------------ readers determined by a prefix *)
+
+Definition prefix_det {A} (f : list byte -> res (A * list byte)) : Prop :=
+  forall w v rest, f w = Ok (v, rest) ->
+    exists c, (c <= length w)%nat /\ rest = skipn c w /\
+      forall w', firstn c w' = firstn c w -> (c <= length w')%nat -> f w' = Ok (v, skipn c w').
+
+Lemma prefix_det_read_un n be : prefix_det (read_un n be).
+Proof.
+  intros w v rest H. rewrite read_un_spec in H.
+  destruct (Nat.leb_spec n (length w)); try discriminate. inversion H; subst.
+  exists n. repeat split; auto. intros w' Hw' Hl. rewrite read_un_spec.
+  destruct (Nat.leb_spec n (length w')); try lia. now rewrite Hw'.
+Qed.
+
+Lemma prefix_det_ext {A} (f g : list byte -> res (A * list byte)) :
+  (forall w, f w = g w) -> prefix_det g -> prefix_det f.
+Proof.
+  intros E Hg w v rest H. rewrite E in H. destruct (Hg w v rest H) as (c & Hc & Hr & Hw).
+  exists c. repeat split; auto. intros w' H1 H2. rewrite E. auto.
+Qed.
+
+Lemma prefix_det_read_word f be : prefix_det (read_word f be).
+Proof. unfold read_word. destruct f; apply prefix_det_read_un. Qed.
+
+Lemma split_leb_prefix : forall bs e rest,
+  split_leb bs = Some (e, rest) -> forall t, split_leb (e ++ t) = Some (e, t).
+Proof.
+  induction bs as [|b bs IH]; intros e rest H t; cbn [split_leb] in H; [discriminate|].
+  destruct (cont_bit b) eqn:Eb.
+  - destruct (split_leb bs) as [[e' rest']|] eqn:Es; [|discriminate]. inversion H; subst.
+    cbn [app split_leb]. rewrite Eb, (IH e' rest eq_refl t). reflexivity.
+  - inversion H; subst. cbn [app split_leb]. now rewrite Eb.
+Qed.
+
+Lemma firstn_skipn_eq {A} (c : nat) (w w' : list A) :
+  firstn c w' = firstn c w -> w' = firstn c w ++ skipn c w'.
+Proof. intros H. rewrite <- H. symmetry. apply firstn_skipn. Qed.
+
+Lemma prefix_det_uleb dbg : prefix_det (read_uleb128 dbg).
+Proof.
+  intros w v rest H. rewrite read_uleb128_exact in H. unfold uleb_spec in H.
+  destruct (split_leb w) as [[e r]|] eqn:Es.
+  2:{ destruct (10 <=? length w)%nat; discriminate. }
+  destruct ((length e <=? 10)%nat && (uval e <? 2 ^ 64)) eqn:Ec; [|discriminate].
+  inversion H; subst. pose proof (split_leb_app _ _ _ Es) as Hw.
+  exists (length e). subst w. rewrite app_length. split; [lia|].
+  rewrite skipn_app, skipn_all, Nat.sub_diag. cbn [skipn app]. split; auto.
+  intros w' Hw' Hl. rewrite firstn_app, firstn_all, Nat.sub_diag, firstn_O, app_nil_r in Hw'.
+  rewrite read_uleb128_exact. unfold uleb_spec.
+  rewrite (firstn_skipn_eq (length e) (e ++ rest) w') at 1
+    by (rewrite firstn_app, firstn_all, Nat.sub_diag, firstn_O, app_nil_r; exact Hw').
+  rewrite firstn_app, firstn_all, Nat.sub_diag, firstn_O, app_nil_r.
+  rewrite (split_leb_prefix _ _ _ Es), Ec. reflexivity.
+Qed.
+
+Lemma prefix_det_sleb dbg : prefix_det (read_sleb128 dbg).
+Proof.
+  intros w v rest H. rewrite read_sleb128_exact in H. unfold sleb_spec in H.
+  destruct (split_leb w) as [[e r]|] eqn:Es.
+  2:{ destruct (10 <=? length w)%nat; discriminate. }
+  destruct ((length e <=? 10)%nat && in_i64 (sval e)) eqn:Ec; [|discriminate].
+  inversion H; subst. pose proof (split_leb_app _ _ _ Es) as Hw.
+  exists (length e). subst w. rewrite app_length. split; [lia|].
+  rewrite skipn_app, skipn_all, Nat.sub_diag. cbn [skipn app]. split; auto.
+  intros w' Hw' Hl. rewrite firstn_app, firstn_all, Nat.sub_diag, firstn_O, app_nil_r in Hw'.
+  rewrite read_sleb128_exact. unfold sleb_spec.
+  rewrite (firstn_skipn_eq (length e) (e ++ rest) w') at 1
+    by (rewrite firstn_app, firstn_all, Nat.sub_diag, firstn_O, app_nil_r; exact Hw').
+  rewrite firstn_app, firstn_all, Nat.sub_diag, firstn_O, app_nil_r.
+  rewrite (split_leb_prefix _ _ _ Es), Ec. reflexivity.
+Qed.
+
+(* the three relocatable methods read a fixed-width unsigned field or reject the size *)
+Definition sized_reader (be : bool) (w : N) (f : list byte -> res (N * list byte)) : Prop :=
+  (exists k, (1 <= k)%nat /\ N.of_nat k = w /\ forall bs, f bs = read_un k be bs) \/
+  (exists e, forall bs, f bs = Err e).
+
+Lemma sized_read_address size be : sized_reader be size (read_address size be).
+Proof.
+  unfold sized_reader, read_address.
+  destruct (N.eqb_spec size 1) as [->|]; [left; exists 1%nat; repeat split; auto; lia|].
+  destruct (N.eqb_spec size 2) as [->|]; [left; exists 2%nat; repeat split; auto; lia|].
+  destruct (N.eqb_spec size 4) as [->|]; [left; exists 4%nat; repeat split; auto; lia|].
+  destruct (N.eqb_spec size 8) as [->|]; [left; exists 8%nat; repeat split; auto; lia|].
+  right; eauto.
+Qed.
+
+Lemma sized_read_sized_offset size be : sized_reader be size (read_sized_offset size be).
+Proof.
+  unfold sized_reader, read_sized_offset.
+  destruct (N.eqb_spec size 1) as [->|]; [left; exists 1%nat; repeat split; auto; lia|].
+  destruct (N.eqb_spec size 2) as [->|]; [left; exists 2%nat; repeat split; auto; lia|].
+  destruct (N.eqb_spec size 4) as [->|]; [left; exists 4%nat; repeat split; auto; lia|].
+  destruct (N.eqb_spec size 8) as [->|]; [left; exists 8%nat; repeat split; auto; lia|].
+  right; eauto.
+Qed.
+
+Lemma sized_read_word f be : sized_reader be (word_size f) (read_word f be).
+Proof.
+  unfold sized_reader, read_word, word_size.
+  destruct f; [left; exists 8%nat; repeat split; auto; lia|left; exists 4%nat; repeat split; auto; lia].
+Qed.
+
+(* ------------------------------------------------------------------ simulation *)
+
+Section Sim.
+  Variables (be dbg : bool) (R : list rrel) (sec : list byte) (base : N).
+  Hypothesis HR : sites_disjointb R = true.
+
+  Definition mkst (s : list byte) (o l : nat) : rd := mkRd (base + N.of_nat o) (slice s o l).
+
+  (* the relocating reader over the raw section and the plain reader over the pre-applied section
+     look at the same window *)
+  Definition st_rel (x : rrd) (r : rd) : Prop :=
+    exists o l, (o + l <= length sec)%nat /\
+      x = mkRrd (mkRd base sec) (mkst sec o l) /\ r = mkst (apply_rrels be R sec) o l.
+
+  Definition res_rel {A} (a : res (A * rrd)) (b : res (A * rd)) : Prop :=
+    match a, b with
+    | Ok (v, x), Ok (v', r) => v = v' /\ st_rel x r
+    | Err e, Err e' => e = e'
+    | Panic, Panic => True
+    | OutOfFuel, OutOfFuel => True
+    | _, _ => False
+    end.
+
+  Lemma rd_len_mkst s o l : (o + l <= length s)%nat -> rd_len (mkst s o l) = N.of_nat l.
+  Proof. intros H. unfold rd_len, mkst, blen. cbn [win]. now rewrite slice_length. Qed.
+
+  Lemma rd_lift_mkst {A} (f : list byte -> res (A * list byte)) s o l v c :
+    (o + l <= length s)%nat -> (c <= l)%nat ->
+    f (slice s o l) = Ok (v, skipn c (slice s o l)) ->
+    rd_lift f (mkst s o l) = Ok (v, mkst s (o + c) (l - c)).
+  Proof.
+    intros Hb Hc Hf. unfold rd_lift, mkst. cbn [win off]. rewrite Hf. cbn [bind].
+    unfold rd_len, blen. cbn [win]. rewrite skipn_length, slice_length, skipn_slice by auto.
+    do 2 f_equal. f_equal. lia.
+  Qed.
+
+  Lemma rd_lift_fail {A} (f : list byte -> res (A * list byte)) (r : rd) :
+    (forall v rest, f (win r) <> Ok (v, rest)) ->
+    rd_lift f r = match f (win r) with Ok _ => Panic | Err e => Err e | Panic => Panic | OutOfFuel => OutOfFuel end.
+  Proof.
+    intros H. unfold rd_lift. destruct (f (win r)) as [[v rest]| | |]; auto. exfalso. eapply H; eauto.
+  Qed.
+
+  Lemma offset_from_mkst o l :
+    (o + l <= length sec)%nat -> rd_offset_from dbg (mkst sec o l) (mkRd base sec) = Ok (N.of_nat o).
+  Proof.
+    intros H. unfold rd_offset_from. rewrite rd_len_mkst by auto. unfold mkst, rd_len, blen. cbn [off win].
+    destruct (N.ltb_spec (base + N.of_nat o) base); try lia.
+    destruct (N.ltb_spec (base + N.of_nat (length sec)) (base + N.of_nat o + N.of_nat l)); try lia.
+    rewrite andb_false_r. unfold chk_sub.
+    destruct (N.leb_spec base (base + N.of_nat o)); try lia. f_equal. lia.
+  Qed.
+
+  Lemma slices_agree o n :
+    (o + n <= length sec)%nat ->
+    (forall r, In r R -> site_disjoint r (N.of_nat o) (N.of_nat n)) ->
+    slice (apply_rrels be R sec) o n = slice sec o n.
+  Proof.
+    intros Hb H. apply slice_ext. intros i Hi. apply apply_rrels_away. intros r Hr.
+    specialize (H r Hr). unfold site_disjoint in H. unfold idx_away. lia.
+  Qed.
+
+  Lemma plain_case {A} (f : list byte -> res (A * list byte)) x r :
+    prefix_det f -> st_rel x r -> trace_ok R (fst (rr_plain f x)) ->
+    res_rel (snd (rr_plain f x)) (rd_lift f r).
+  Proof.
+    intros Hf (o & l & Hb & -> & ->) Ht.
+    unfold rr_plain in *. cbn [reader section] in *.
+    replace (off (mkst sec o l) - off (mkRd base sec)) with (N.of_nat o) in Ht
+      by (unfold mkst; cbn [off]; lia).
+    destruct (f (slice sec o l)) as [[v rest]|e| |] eqn:Ef.
+    - destruct (Hf _ _ _ Ef) as (c & Hc & Hrest & Hdet). rewrite slice_length in Hc by auto.
+      subst rest.
+      rewrite (rd_lift_mkst f sec o l v c Hb Hc Ef) in *. cbn [fst snd] in *.
+      rewrite !rd_len_mkst in Ht by lia.
+      inversion Ht as [|? ? He _]; subst. cbn [ev_ok] in He.
+      assert (Hs : slice (apply_rrels be R sec) o c = slice sec o c).
+      { apply slices_agree; [lia|]. intros r Hr. specialize (He r Hr).
+        unfold site_disjoint in *. lia. }
+      assert (Hp : f (slice (apply_rrels be R sec) o l) = Ok (v, skipn c (slice (apply_rrels be R sec) o l))).
+      { apply Hdet.
+        - rewrite !firstn_slice by auto. exact Hs.
+        - rewrite slice_length; auto. now rewrite apply_rrels_length. }
+      rewrite (rd_lift_mkst f _ o l v c) by (rewrite ?apply_rrels_length; auto).
+      cbn [res_rel]. split; auto. exists (o + c)%nat, (l - c)%nat. repeat split; auto. lia.
+    - assert (Hl : rd_lift f (mkst sec o l) = Err e) by (unfold rd_lift, mkst; cbn [win]; now rewrite Ef).
+      rewrite Hl in *. cbn [fst snd] in *. rewrite rd_len_mkst in Ht by auto.
+      inversion Ht as [|? ? He _]; subst. cbn [ev_ok] in He.
+      rewrite <- (slices_agree o l Hb He) in Ef.
+      unfold rd_lift, mkst. cbn [win]. rewrite Ef. cbn. reflexivity.
+    - assert (Hl : rd_lift f (mkst sec o l) = Panic) by (unfold rd_lift, mkst; cbn [win]; now rewrite Ef).
+      rewrite Hl in *. cbn [fst snd] in *. rewrite rd_len_mkst in Ht by auto.
+      inversion Ht as [|? ? He _]; subst. cbn [ev_ok] in He.
+      rewrite <- (slices_agree o l Hb He) in Ef.
+      unfold rd_lift, mkst. cbn [win]. rewrite Ef. cbn. exact I.
+    - assert (Hl : rd_lift f (mkst sec o l) = OutOfFuel) by (unfold rd_lift, mkst; cbn [win]; now rewrite Ef).
+      rewrite Hl in *. cbn [fst snd] in *. rewrite rd_len_mkst in Ht by auto.
+      inversion Ht as [|? ? He _]; subst. cbn [ev_ok] in He.
+      rewrite <- (slices_agree o l Hb He) in Ef.
+      unfold rd_lift, mkst. cbn [win]. rewrite Ef. cbn. exact I.
+  Qed.
+
+  Lemma read_un_slice k s o l :
+    (o + l <= length s)%nat -> (k <= l)%nat ->
+    read_un k be (slice s o l) = Ok (dec_un be (slice s o k), skipn k (slice s o l)).
+  Proof.
+    intros Hb Hk. rewrite read_un_spec, slice_length by auto.
+    destruct (Nat.leb_spec k l); try lia. now rewrite firstn_slice.
+  Qed.
+
+  Lemma read_un_slice_eof k s o l :
+    (o + l <= length s)%nat -> (l < k)%nat -> read_un k be (slice s o l) = Err EUnexpectedEof.
+  Proof.
+    intros Hb Hk. rewrite read_un_spec, slice_length by auto.
+    destruct (Nat.leb_spec k l); try lia. reflexivity.
+  Qed.
+
+  Lemma rel_case (w : N) (f : list byte -> res (N * list byte)) (hook : N -> N -> res N) x r :
+    (forall pos v, hook pos v = Ok (relocate R pos v)) ->
+    sized_reader be w f -> st_rel x r ->
+    trace_ok R (fst (rr_rel dbg w f hook x)) ->
+    res_rel (snd (rr_rel dbg w f hook x)) (rd_lift f r).
+  Proof.
+    intros Hh Hs (o & l & Hb & -> & ->) Ht.
+    unfold rr_rel in *. cbn [reader section] in *. rewrite offset_from_mkst in * by auto.
+    set (P := apply_rrels be R sec) in *.
+    assert (HbP : (o + l <= length P)%nat) by (unfold P; now rewrite apply_rrels_length).
+    destruct Hs as [(k & Hk & Hw & Hfk) | (e & He)].
+    - destruct (Nat.le_gt_cases k l) as [Hkl|Hkl].
+      + assert (E1 : f (slice sec o l) = Ok (dec_un be (slice sec o k), skipn k (slice sec o l)))
+          by (rewrite Hfk; now apply read_un_slice).
+        assert (E2 : f (slice P o l) = Ok (dec_un be (slice P o k), skipn k (slice P o l)))
+          by (rewrite Hfk; now apply read_un_slice).
+        rewrite (rd_lift_mkst f sec o l _ k Hb Hkl E1) in *.
+        rewrite (rd_lift_mkst f P o l _ k HbP Hkl E2).
+        cbn [fst snd] in *. rewrite Hh. cbn [bind res_rel].
+        set (v := dec_un be (slice sec o k)) in *.
+        apply Forall_inv in Ht. cbn [ev_ok] in Ht. destruct Ht as (H1 & H2).
+        split.
+        * (* the value *)
+          destruct (find (fun r => rr_pos r =? N.of_nat o) R) as [r|] eqn:Efind.
+          -- apply find_some in Efind as [Hin Hpos]. apply N.eqb_eq in Hpos.
+             destruct (H1 r Hin Hpos) as [Hrw H3].
+             assert (Hu : relocate R (N.of_nat o) v = rrel_value r v).
+             { apply relocate_unique; auto; try lia. intros r' Hr' Hp'.
+               destruct (H1 r' Hr' Hp') as [Hw' _]. rewrite Hw'. lia. }
+             pose proof (apply_rrels_site be R sec r HR Hin) as Hsite.
+             rewrite Hpos, Hrw, <- Hw, !Nat2N.id in Hsite. fold P in Hsite.
+             rewrite Hsite by (unfold rrel_in, blen; lia).
+             rewrite dec_enc_un. fold v. rewrite Hu. symmetry. apply N.mod_small.
+             rewrite Hw. exact H3.
+          -- assert (Hnone : forall r, In r R -> rr_pos r <> N.of_nat o).
+             { intros r Hr Hp. pose proof (find_none _ _ Efind r Hr) as Hf. cbn in Hf.
+               apply N.eqb_neq in Hf. contradiction. }
+             rewrite relocate_none by exact Hnone.
+             unfold P. rewrite slices_agree; auto; try lia.
+             intros r Hr. rewrite Hw. apply H2; auto.
+        * exists (o + k)%nat, (l - k)%nat. repeat split; auto. lia.
+      + assert (E1 : rd_lift f (mkst sec o l) = Err EUnexpectedEof).
+        { unfold rd_lift, mkst. cbn [win]. rewrite Hfk, read_un_slice_eof by auto. reflexivity. }
+        assert (E2 : rd_lift f (mkst P o l) = Err EUnexpectedEof).
+        { unfold rd_lift, mkst. cbn [win]. rewrite Hfk, read_un_slice_eof by auto. reflexivity. }
+        rewrite E1, E2. cbn. reflexivity.
+    - assert (E1 : rd_lift f (mkst sec o l) = Err e) by (unfold rd_lift; now rewrite He).
+      assert (E2 : rd_lift f (mkst P o l) = Err e) by (unfold rd_lift; now rewrite He).
+      rewrite E1, E2. cbn. reflexivity.
+  Qed.
+
+  Lemma tbind_rel {V A} (t : tres (V * rrd)) (g : V * rrd -> tres (A * rrd))
+        (b : res (V * rd)) (h : V * rd -> res (A * rd)) :
+    trace_ok R (fst (tbind t g)) ->
+    (trace_ok R (fst t) -> res_rel (snd t) b) ->
+    (forall v x' r', st_rel x' r' -> trace_ok R (fst (g (v, x'))) ->
+                     res_rel (snd (g (v, x'))) (h (v, r'))) ->
+    res_rel (snd (tbind t g)) (bind b h).
+  Proof.
+    intros Ht H1 H2. unfold tbind in *. destruct t as [tr [[v x']|e| |]]; cbn [fst snd] in *.
+    - apply Forall_app in Ht as [Ht1 Ht2]. specialize (H1 Ht1).
+      destruct b as [[v' r']|e'| |]; cbn [res_rel] in H1; try contradiction.
+      destruct H1 as [<- Hst]. cbn [bind]. apply H2; auto.
+    - specialize (H1 Ht). destruct b as [[v' r']|e'| |]; cbn [res_rel] in H1; try contradiction.
+      subst. cbn. reflexivity.
+    - specialize (H1 Ht). destruct b as [[v' r']|e'| |]; cbn [res_rel] in H1; try contradiction.
+      cbn. exact I.
+    - specialize (H1 Ht). destruct b as [[v' r']|e'| |]; cbn [res_rel] in H1; try contradiction.
+      cbn. exact I.
+  Qed.
+
+  Lemma rd_skip_mkst s o l n :
+    (o + l <= length s)%nat ->
+    rd_skip n (mkst s o l) =
+    if N.of_nat l <? n then Err EUnexpectedEof else Ok (mkst s (o + N.to_nat n) (l - N.to_nat n)).
+  Proof.
+    intros Hb. unfold rd_skip. rewrite rd_len_mkst by auto.
+    destruct (N.ltb_spec (N.of_nat l) n); auto.
+    unfold mkst. cbn [off win]. rewrite skipn_slice by lia. do 2 f_equal. lia.
+  Qed.
+
+  Lemma rd_truncate_mkst s o l n :
+    (o + l <= length s)%nat ->
+    rd_truncate n (mkst s o l) =
+    if N.of_nat l <? n then Err EUnexpectedEof else Ok (mkst s o (N.to_nat n)).
+  Proof.
+    intros Hb. unfold rd_truncate. rewrite rd_len_mkst by auto.
+    destruct (N.ltb_spec (N.of_nat l) n); auto.
+    unfold mkst. cbn [off win]. rewrite firstn_slice by lia. reflexivity.
+  Qed.
+
+  Lemma rd_split_mkst s o l n :
+    (o + l <= length s)%nat ->
+    rd_split n (mkst s o l) =
+    if N.of_nat l <? n then Err EUnexpectedEof
+    else Ok (mkst s o (N.to_nat n), mkst s (o + N.to_nat n) (l - N.to_nat n)).
+  Proof.
+    intros Hb. unfold rd_split. rewrite rd_len_mkst by auto.
+    destruct (N.ltb_spec (N.of_nat l) n); auto.
+    unfold mkst. cbn [off win]. rewrite firstn_slice, skipn_slice by lia. do 3 f_equal. lia.
+  Qed.
+
+  Lemma sim_run {A} (p : prog A) : forall x r,
+    st_rel x r ->
+    trace_ok R (fst (run_reloc_rd be dbg (map_relocator R) p x)) ->
+    res_rel (snd (run_reloc_rd be dbg (map_relocator R) p x)) (run_plain_rd be dbg p r).
+  Proof.
+    induction p as [a|e| |n k IH|k IH|k IH|n k IH|k IH|size k IH|f k IH|size k IH|f k IH|len sub IHs k IHk];
+      intros x r Hst Ht; cbn [run_reloc_rd run_plain_rd] in *.
+    - cbn. auto.
+    - cbn. auto.
+    - cbn. auto.
+    - apply tbind_rel; [exact Ht| |].
+      + intros Ht'. apply plain_case; auto. apply prefix_det_read_un.
+      + intros v x' r' Hst' Ht'. apply IH; auto.
+    - apply tbind_rel; [exact Ht| |].
+      + intros Ht'. apply plain_case; auto. apply prefix_det_uleb.
+      + intros v x' r' Hst' Ht'. apply IH; auto.
+    - apply tbind_rel; [exact Ht| |].
+      + intros Ht'. apply plain_case; auto. apply prefix_det_sleb.
+      + intros v x' r' Hst' Ht'. apply IH; auto.
+    - destruct Hst as (o & l & Hb & -> & ->). cbn [reader section] in *.
+      assert (HbP : (o + l <= length (apply_rrels be R sec))%nat) by now rewrite apply_rrels_length.
+      rewrite !rd_skip_mkst in * by auto.
+      destruct (N.ltb_spec (N.of_nat l) n).
+      + cbn. reflexivity.
+      + unfold tbind, tret in *. cbn [fst snd bind app] in *.
+        apply IH; auto. exists (o + N.to_nat n)%nat, (l - N.to_nat n)%nat. repeat split; auto. lia.
+    - destruct Hst as (o & l & Hb & -> & ->). cbn [reader section] in *.
+      rewrite !rd_len_mkst in * by (rewrite ?apply_rrels_length; auto).
+      apply IH; auto. exists o, l. auto.
+    - apply tbind_rel; [exact Ht| |].
+      + intros Ht'. apply rel_case; auto. apply sized_read_address.
+      + intros v x' r' Hst' Ht'. apply IH; auto.
+    - apply tbind_rel; [exact Ht| |].
+      + intros Ht'. apply rel_case; auto. apply sized_read_word.
+      + intros v x' r' Hst' Ht'. apply IH; auto.
+    - apply tbind_rel; [exact Ht| |].
+      + intros Ht'. apply rel_case; auto. apply sized_read_sized_offset.
+      + intros v x' r' Hst' Ht'. apply IH; auto.
+    - apply tbind_rel; [exact Ht| |].
+      + intros Ht'. apply plain_case; auto. apply prefix_det_read_word.
+      + intros v x' r' Hst' Ht'. apply IH; auto.
+    - destruct Hst as (o & l & Hb & -> & ->).
+      assert (HbP : (o + l <= length (apply_rrels be R sec))%nat) by now rewrite apply_rrels_length.
+      unfold rr_split in *. cbn [reader section] in *.
+      rewrite rd_truncate_mkst, rd_skip_mkst, rd_split_mkst in * by auto.
+      destruct (N.ltb_spec (N.of_nat l) len).
+      + cbn. reflexivity.
+      + cbn [bind] in *. unfold tbind at 1 in Ht. unfold tbind at 1. unfold tret in *.
+        cbn [fst snd app] in *.
+        apply tbind_rel; [exact Ht| |].
+        * intros Ht'. apply IHs; auto. exists o, (N.to_nat len). repeat split; auto. lia.
+        * intros a x'' r'' _ Ht'. apply IHk; auto.
+          exists (o + N.to_nat len)%nat, (l - N.to_nat len)%nat. repeat split; auto. lia.
+  Qed.
+End Sim.
+
+(* ------------------------------------------------------------------ top-level reader statements *)
+
+Lemma mkst_whole base (s : list byte) : mkst base s 0 (length s) = mkRd base s.
+Proof. unfold mkst, slice. cbn [skipn]. rewrite firstn_all. f_equal. lia. Qed.
+
+Lemma st_rel_start be R sec base :
+  st_rel be R sec base (rrd_new (mkRd base sec)) (mkRd base (apply_rrels be R sec)).
+Proof.
+  exists 0%nat, (length sec). repeat split; auto.
+  - unfold rrd_new. now rewrite mkst_whole.
+  - rewrite <- (apply_rrels_length be R sec). now rewrite mkst_whole.
+Qed.
+
+Lemma res_rel_out {A} be R sec base (a : res (A * rrd)) (b : res (A * rd)) :
+  res_rel be R sec base a b ->
+  out_reloc a = out_plain (mkRd base (apply_rrels be R sec)) b.
+Proof.
+  unfold res_rel, out_reloc, out_plain.
+  destruct a as [[v x]|e| |], b as [[v' r]|e'| |]; cbn [bind]; try contradiction; auto.
+  - intros [<- (o & l & Hb & -> & ->)]. cbn [reader section off].
+    rewrite !rd_len_mkst by (rewrite ?apply_rrels_length; auto).
+    unfold mkst. cbn [off]. do 2 f_equal.
+  - now intros ->.
+Qed.
+
+Lemma parser_reloc_lemma : forall (A : Type) (be dbg : bool) (R : list rrel) (p : prog A) (bs : list byte) (base : N),
+  sites_disjointb R = true ->
+  trace_ok R (fst (run_reloc_rd be dbg (map_relocator R) p (rrd_new (mkRd base bs)))) ->
+  out_reloc (snd (run_reloc_rd be dbg (map_relocator R) p (rrd_new (mkRd base bs)))) =
+  out_plain (mkRd base (apply_rrels be R bs))
+            (run_plain_rd be dbg p (mkRd base (apply_rrels be R bs))).
+Proof.
+  intros A be dbg R p bs base HR Ht. apply res_rel_out.
+  apply sim_run; auto. apply st_rel_start.
+Qed.
+
+(* boolean side conditions reflect the propositional ones *)
+Lemma site_disjointb_ok r pos n : site_disjointb r pos n = true -> site_disjoint r pos n.
+Proof. unfold site_disjointb, site_disjoint. lia. Qed.
+
+Lemma ev_okb_ok R e : ev_okb R e = true -> ev_ok R e.
+Proof.
+  destruct e as [pos n|pos w v]; cbn [ev_okb ev_ok]; rewrite forallb_forall; intros H.
+  - intros r Hr. apply site_disjointb_ok. auto.
+  - split; intros r Hr Hp; specialize (H r Hr).
+    + apply N.eqb_eq in Hp. rewrite Hp in H. apply andb_true_iff in H as [H1 H2].
+      apply N.eqb_eq in H1. apply N.ltb_lt in H2. auto.
+    + apply N.eqb_neq in Hp. rewrite Hp in H. now apply site_disjointb_ok.
+Qed.
+
+Lemma trace_okb_ok R t : trace_okb R t = true -> trace_ok R t.
+Proof.
+  unfold trace_okb, trace_ok. rewrite forallb_forall. intros H. apply Forall_forall.
+  intros e He. apply ev_okb_ok. auto.
+Qed.
+
+(* the empty relocation set: every trace is acceptable, the section is unchanged *)
+Lemma trace_ok_nil t : trace_ok [] t.
+Proof.
+  unfold trace_ok. apply Forall_forall. intros [pos n|pos w v] _; cbn [ev_ok].
+  - intros r [].
+  - split; intros r [].
+Qed.
+
+Lemma identity_reloc_lemma : forall (A : Type) (be dbg : bool) (p : prog A) (bs : list byte) (base : N),
+  out_reloc (snd (run_reloc_rd be dbg id_relocator p (rrd_new (mkRd base bs)))) =
+  out_plain (mkRd base bs) (run_plain_rd be dbg p (mkRd base bs)).
+Proof.
+  intros A be dbg p bs base.
+  change id_relocator with (map_relocator []).
+  change bs with (apply_rrels be [] bs) at 2 3.
+  apply parser_reloc_lemma; auto. apply trace_ok_nil.
 Qed.
